@@ -14,6 +14,15 @@ A description is plain JSON data:
   inline = ['t', s] | ['span', style, [inline]] | ['a', href, [inline]] | ['s', c|None] | ['tab'] | ['br']
          | ['bm', name] | ['bms', name] | ['bme', name] | ['bmref', name, s]
          | ['note', class, citation, [block]] | ['frame', anchor, style, ['textbox', [block]] | ['image']]
+         | ['shape', kind, anchor, style, [block]]     (draw:rect / draw:ellipse / draw:custom-shape holding paragraphs)
+
+  block-level containers (the places where the schema allows text-content: office:text, text:section, table:table-cell,
+  draw:text-box, text:note-body, text:index-body / text:index-title):
+  block  = … | ['frame', anchor, style, content]   the same description as the inline frame, as a CHILD of the container
+         | ['shape', kind, anchor, style, [block]]
+         | ['index', kind, name, title [block]|None, [block]]   text:table-of-content, text:alphabetical-index, … with an
+                                                   empty …-source, a text:index-body holding (text:index-title, then) the blocks
+         | ['numpar', listid, level|None, block(p|h)]            text:numbered-paragraph
 """
 import base64
 
@@ -39,6 +48,11 @@ SPECIAL_S = [u'Emphasis', u'Strong_20_Emphasis', u'Teletype', u'Citation']
 HREFS = [u'', u'#', u'#anchor', u'#a<b', u'javascript:alert("1")', u'http://x/?a=1&b="2"', u"http://x/'q'|frame",
          u'http://example.org/', u'mailto:a@b', u'#q&r', u'../rel<path>', u'|', u'#|x', u' http://sp ', u'http://é/\U0001F600']
 WS = [u' ', u'\t', u'\n', u'\r\n', u'\r', u'  ', u' \r ', u'\n  ', u'\n\n', u' \t', u'\n\t\n']
+INDEX = {'toc': ('table-of-content', 'table-of-content-source'), 'alpha': ('alphabetical-index', 'alphabetical-index-source'),
+         'illus': ('illustration-index', 'illustration-index-source'), 'tabidx': ('table-index', 'table-index-source'),
+         'objidx': ('object-index', 'object-index-source'), 'user': ('user-index', 'user-index-source'),
+         'bib': ('bibliography', 'bibliography-source')}
+SHAPES = {'rect': 'rect', 'ellipse': 'ellipse', 'custom': 'custom-shape'}
 SAFE = set(u'abcdefghijklmnopqrstuvwxyzABCDEFGHIJKLMNOPQRSTUVWXYZ0123456789_ .#:/-@')
 
 
@@ -175,9 +189,11 @@ class Gen(object):
                 body = [self.para(depth + 1, True)]
                 for _ in range(r.choice([0, 0, 0, 1, 2])):
                     body.append(self.para(depth + 1, True) if r.random() < 0.7 else self.lst(depth + 1, True))
+                if r.random() < 0.12 and depth + 2 < self.maxdepth:
+                    body.insert(r.randint(0, len(body)), self.container(depth + 1, True))
                 out.append(['note', r.choice(['footnote', 'endnote']), cit, body]); self.feat.add('note')
             elif x < 0.97 and allow_frame and not inlink and depth < self.maxdepth - 1:
-                out.append(self.frame(depth + 1, innote))
+                out.append(self.frame(depth + 1, innote) if r.random() < 0.9 else self.shape(depth + 1, innote))
             else:
                 out.append(['t', self.run()])
             if r.random() < 0.3:
@@ -197,10 +213,64 @@ class Gen(object):
         blocks = []
         for _ in range(r.choice([0, 1, 1, 2])):
             blocks.append(self.para(depth + 1, innote) if r.random() < 0.75 else self.lst(depth + 1, innote))
+        if r.random() < 0.12 and depth + 2 < self.maxdepth:
+            blocks.insert(r.randint(0, len(blocks)), self.container(depth + 1, innote))
         if r.random() < 0.2:
             self.feat.add('image+textbox')
             return ['frame', anchor, st, ['both', blocks]]
         return ['frame', anchor, st, ['textbox', blocks]]
+
+    def shape(self, depth, innote=False):
+        """a drawing shape that holds paragraphs (draw:rect, draw:ellipse, draw:custom-shape)"""
+        r = self.rng
+        self.feat.add('shape')
+        blocks = []
+        for _ in range(r.choice([0, 1, 1, 2])):
+            blocks.append(self.para(depth + 1, innote) if r.random() < 0.8 else self.lst(depth + 1, innote))
+        return ['shape', r.choice(sorted(SHAPES)), r.choice([None, 'paragraph', 'char', 'as-char', 'page']),
+                r.choice([None, None, self.name(None, 0.6)]), blocks]
+
+    def index(self, depth, innote=False):
+        """a table of content / index: its body holds ordinary block content (and an index title)"""
+        r = self.rng
+        self.feat.add('index')
+        kind = r.choice(sorted(INDEX))
+        title = None
+        if r.random() < 0.6:
+            self.feat.add('index-title')
+            title = [self.para(depth + 2, innote) for _ in range(r.choice([1, 1, 2]))]
+        body = []
+        for _ in range(r.choice([0, 1, 2, 3])):
+            x = r.random()
+            if x < 0.7 or depth + 2 >= self.maxdepth:
+                body.append(self.para(depth + 2, innote))
+            elif x < 0.85:
+                body.append(self.lst(depth + 2, innote))
+            elif x < 0.93:
+                body.append(['section', self.name(None, 0.4), [self.para(depth + 2, innote)]])
+            else:
+                body.append(self.container(depth + 2, innote))
+        return ['index', kind, self.name(None, 0.4), title, body]
+
+    def numpar(self, depth, innote=False):
+        r = self.rng
+        self.feat.add('numbered-paragraph')
+        inner = self.para(depth + 1, innote) if r.random() < 0.8 else self.heading(depth + 1, innote)
+        return ['numpar', self.name(None, 0.3), r.choice([None, None, 1, 2, 10]), inner]
+
+    def container(self, depth, innote=False):
+        """one of the block-level containers: a frame / shape that is a CHILD of the block container, an index, a numbered paragraph"""
+        r = self.rng
+        x = r.random()
+        if x < 0.45 and depth + 1 < self.maxdepth:
+            self.feat.add('block-frame')
+            return self.frame(depth + 1, innote)
+        if x < 0.55 and depth + 1 < self.maxdepth:
+            self.feat.add('block-shape')
+            return self.shape(depth + 1, innote)
+        if x < 0.8 and depth + 2 < self.maxdepth:
+            return self.index(depth, innote)
+        return self.numpar(depth, innote)
 
     # ---------------------------------------------------------------- blocks
     def para(self, depth, innote=False):
@@ -258,7 +328,14 @@ class Gen(object):
                 blocks = []
                 for _ in range(r.choice([0, 1, 1, 1, 2])):
                     x = r.random()
-                    if sheet or x < 0.7 or depth + 1 >= self.maxdepth:
+                    if x > 0.94 and depth + 2 < self.maxdepth and r.random() < 0.7:
+                        # a block-level container in the cell (in a spreadsheet: frames and shapes only)
+                        if sheet:
+                            self.feat.add('block-frame')
+                            blocks.append(self.frame(depth + 1, innote) if r.random() < 0.8 else self.shape(depth + 1, innote))
+                        else:
+                            blocks.append(self.container(depth + 1, innote))
+                    elif sheet or x < 0.7 or depth + 1 >= self.maxdepth:
                         blocks.append(self.para(depth + 1, innote))
                     elif x < 0.85:
                         blocks.append(self.lst(depth + 1, innote))
@@ -280,6 +357,8 @@ class Gen(object):
 
     def block(self, depth, insection=False):
         r = self.rng
+        if r.random() < 0.09 and depth + 1 < self.maxdepth:
+            return self.container(depth)
         x = r.random()
         if x < 0.45 or depth >= self.maxdepth:
             return self.para(depth)
@@ -312,7 +391,7 @@ class Gen(object):
         else:
             body = []
             for _ in range(r.randint(1, 3)):
-                frames = [self.frame(2) for _ in range(r.randint(1, 3))]
+                frames = [(self.frame(2) if r.random() < 0.85 else self.shape(2)) for _ in range(r.randint(1, 3))]
                 body.append(['page', self.name(None, 0.5), frames])
         return {'kind': kind, 'meta': m, 'styles': st, 'liststyles': ls, 'body': body}
 
@@ -345,7 +424,7 @@ def neutral(x, table=None):
 
 
 TAGS = set(['p', 'h', 'list', 'table', 'section', 'page', 'cell', 'covered', 't', 'span', 'a', 's', 'tab', 'br', 'bm', 'bms', 'bme',
-            'bmref', 'note', 'frame', 'textbox', 'image'])
+            'bmref', 'note', 'frame', 'textbox', 'image', 'shape', 'index', 'numpar'])
 
 
 # ---------------------------------------------------------------- builder (odfpy public API; attribute values set raw)
@@ -442,6 +521,14 @@ def build(spec):
                     f.addElement(draw.Image(href=href_png[0]))
                 if it[3][0] in ('textbox', 'both'):
                     tb = draw.TextBox(); f.addElement(tb); blocks(tb, it[3][1])
+            elif k == 'shape':
+                cls = {'rect': draw.Rect, 'ellipse': draw.Ellipse, 'custom': draw.CustomShape}[it[1]]
+                f = cls(width=u'2cm', height=u'1cm')
+                raw(f, 'text', 'anchor-type', it[2]); raw(f, 'draw', 'style-name', it[3])
+                if kind == 'pres':
+                    raw(f, 'svg', 'x', u'1cm'); raw(f, 'svg', 'y', u'1cm')
+                parent.addElement(f)
+                blocks(f, it[4])
             else:
                 raise ValueError('inline %r' % (k,))
 
@@ -492,6 +579,25 @@ def build(spec):
                 parent.addElement(text.SoftPageBreak())
             elif k == 'section':
                 e = text.Section(name=u'x'); raw(e, 'text', 'name', b[1]); parent.addElement(e); blocks(e, b[2])
+            elif k in ('frame', 'shape'):
+                inl(parent, [b])                       # the same element, as a child of the block container
+            elif k == 'index':
+                el, src = INDEX[b[1]]
+                cls, scls = {'toc': (text.TableOfContent, text.TableOfContentSource), 'alpha': (text.AlphabeticalIndex, text.AlphabeticalIndexSource),
+                             'illus': (text.IllustrationIndex, text.IllustrationIndexSource), 'tabidx': (text.TableIndex, text.TableIndexSource),
+                             'objidx': (text.ObjectIndex, text.ObjectIndexSource), 'user': (text.UserIndex, text.UserIndexSource),
+                             'bib': (text.Bibliography, text.BibliographySource)}[b[1]]
+                e = cls(name=u'x'); raw(e, 'text', 'name', b[2]); parent.addElement(e)
+                e.addElement(scls(indexname=u'ix') if b[1] == 'user' else scls())
+                ib = text.IndexBody(); e.addElement(ib)
+                if b[3] is not None:
+                    it = text.IndexTitle(name=u'x'); raw(it, 'text', 'name', (b[2] or u'') + u'_Head'); ib.addElement(it)
+                    blocks(it, b[3])
+                blocks(ib, b[4])
+            elif k == 'numpar':
+                e = text.NumberedParagraph(listid=u'x'); raw(e, 'text', 'list-id', b[1])
+                if b[2] is not None: raw(e, 'text', 'level', u'%d' % b[2])
+                parent.addElement(e); blocks(e, [b[3]])
             elif k == 'page':
                 if not getattr(d, '_c18_mp', None):
                     pl = style.PageLayout(name=u'PL1'); d.automaticstyles.addElement(pl)
@@ -508,9 +614,23 @@ def build(spec):
 
 
 # ---------------------------------------------------------------- the independent reading of a description
+# classes of block-level containers whose text a converter may lose as a whole (MoinMoin: m-…; a run carries the flag of
+# the OUTERMOST such container only), and the class of paragraph text standing directly in front of a drawing shape (XHTML)
+M_LOST = ('m-top-frame', 'm-top-shape', 'm-nested-shape', 'm-top-index', 'm-nested-index',
+          'm-top-numbered-paragraph', 'm-nested-numbered-paragraph')
+X_LOST = ('x-pending-before-shape',)
+
+
+def _mark(flags, name):
+    f2 = set(flags)
+    if not any(f in M_LOST for f in f2):
+        f2.add(name)
+    return f2
+
+
 def _purges(blocks):
     for b in blocks:
-        if b[0] in ('p', 'h', 'list', 'table'):
+        if b[0] in ('p', 'h', 'list', 'table', 'numpar'):
             return True
         if b[0] == 'section' and _purges(b[2]):
             return True
@@ -593,12 +713,31 @@ def visible(spec):
                         del pend[:]
                     blocks(it[3][1], out, flags, inbox=True)
                 out.append(('x',))
+            elif k == 'shape':
+                out.append(('x',))
+                if it[4]:
+                    for p in pend:
+                        p[3].add('x-pending-before-shape')
+                    del pend[:]
+                blocks(it[4], out, _mark(flags, 'm-nested-shape'), inbox=True)
+                out.append(('x',))
 
-    def blocks(items, out, flags, inbox=False, insection=False):
+    def blocks(items, out, flags, inbox=False, insection=False, top=False):
         for b in items:
             k = b[0]
             out.append(('x',))
-            if k == 'p':
+            if k == 'frame':
+                inl([b], out, 0, _mark(flags, 'm-top-frame') if top else flags, [])
+            elif k == 'shape':
+                blocks(b[4], out, _mark(flags, 'm-top-shape' if top else 'm-nested-shape'), inbox=True)
+            elif k == 'index':
+                f2 = _mark(flags, 'm-top-index' if top else 'm-nested-index')
+                if b[3] is not None:
+                    blocks(b[3], out, f2, inbox=True)
+                blocks(b[4], out, f2, inbox=True)
+            elif k == 'numpar':
+                blocks([b[3]], out, _mark(flags, 'm-top-numbered-paragraph' if top else 'm-nested-numbered-paragraph'), inbox=inbox)
+            elif k == 'p':
                 par_counter[0] += 1
                 inl(b[2], out, par_counter[0], flags, [])
             elif k == 'h':
@@ -629,7 +768,7 @@ def visible(spec):
                 inl(b[2], out, 0, flags, [])
             out.append(('x',))
 
-    blocks(spec['body'], main, set())
+    blocks(spec['body'], main, set(), top=(spec['kind'] == 'text'))
     return main, notes
 
 
@@ -745,6 +884,12 @@ class Ser(object):
                 if it[3][0] in ('textbox', 'both'):
                     self.nl(depth + 1); self.open('draw:text-box'); self.blocks(it[3][1], depth + 2); self.nl(depth + 1); self.close('draw:text-box')
                 self.nl(depth); self.close('draw:frame')
+            elif k == 'shape':
+                a = [('svg:width', u'2cm'), ('svg:height', u'1cm'), ('text:anchor-type', it[2]), ('draw:style-name', it[3])]
+                if self.spec['kind'] == 'pres':
+                    a += [('svg:x', u'1cm'), ('svg:y', u'1cm')]
+                nm = 'draw:' + SHAPES[it[1]]
+                self.open(nm, a); self.blocks(it[4], depth + 1); self.nl(depth); self.close(nm)
 
     def blocks(self, items, depth):
         for b in items:
@@ -799,6 +944,21 @@ class Ser(object):
                 self.open('text:soft-page-break', [], True)
             elif k == 'section':
                 self.open('text:section', [('text:name', b[1])]); self.blocks(b[2], depth + 1); self.nl(depth); self.close('text:section')
+            elif k in ('frame', 'shape'):
+                self.inl([b], depth)
+            elif k == 'index':
+                el, src = INDEX[b[1]]
+                self.open('text:' + el, [('text:name', b[2])])
+                self.nl(depth + 1); self.open('text:' + src, [('text:index-name', u'ix' if b[1] == 'user' else None)], True)
+                self.nl(depth + 1); self.open('text:index-body')
+                if b[3] is not None:
+                    self.nl(depth + 2); self.open('text:index-title', [('text:name', (b[2] or u'') + u'_Head')])
+                    self.blocks(b[3], depth + 3); self.nl(depth + 2); self.close('text:index-title')
+                self.blocks(b[4], depth + 2)
+                self.nl(depth + 1); self.close('text:index-body'); self.nl(depth); self.close('text:' + el)
+            elif k == 'numpar':
+                self.open('text:numbered-paragraph', [('text:list-id', b[1]), ('text:level', None if b[2] is None else u'%d' % b[2])])
+                self.blocks([b[3]], depth + 1); self.nl(depth); self.close('text:numbered-paragraph')
             elif k == 'page':
                 self.open('draw:page', [('draw:name', b[1]), ('draw:master-page-name', u'MP1')])
                 for f in b[2]:
